@@ -85,11 +85,19 @@ def holds (env : Env) (c : Cfg) (evs : List PEv) (obs : List Obs) : Bool :=
   Helper lemmas live in `Qhttp/Lemmas/Proxy*.lean` (namespace `Qhttp.ProxyL`).  All statements are
   about arbitrary byte strings, header maps and configurations (unbounded).
 
-  The one hypothesis that is NOT guaranteed by the library and is therefore explicit:
-  * `C03L.HdrWf h` — every header entry has a non-empty name free of ':' and CR and a value free of
-    CR.  `Parser::parseHeaderList` guarantees the ':' part only (`ProxyL.wf_of_parseHeaderList`
-    derives the rest from CR-free lines with non-blank names): an empty name (line `": v"`) is
-    accepted by the library and forwarded as it is, see `empty_name_forwarded` (known finding).
+  There is NO hypothesis on the client's header lines any more.  `head_wellformed` is stated for an
+  arbitrary socket state under `C03L.HdrWf h` (every entry has a non-empty name free of ':' and CR
+  and a value free of CR) and `head_wellformed_general` under the weaker `ProxyL.HdrW h` (non-empty
+  name free of ':', name and value free of CR LF — a lone CR is an ordinary byte).  For every
+  request head the library's parser accepts, `HdrW` of the header map is a theorem
+  (`hdrW_parsed`): the names are non-empty and free of ':' because `Parser::parseHeaderList` refuses
+  blank names (`names_guaranteed`), and nothing contains CR LF because header lines are cut at
+  CR LF.  So the run theorems `holds_run`, `holds_run_all` need no `HdrWf`/`LineOk` hypothesis.
+
+  History: a header line with an empty or blank name (`": v"`, `"  : v"`) used to be accepted by the
+  parser and forwarded as the line `": v"`, which no HTTP reader accepts; repaired in
+  `Parser::parseHeaderList` (such a head is answered 400 and nothing is sent upstream), see
+  `empty_name_rejected`.
 
   History: with the query copied verbatim (`rawQuery` instead of `upstreamQuery`) the target
   clause was false — a lone LF or CR in the query passes `Parser::parseHeaders` and `QUrl` and
@@ -182,7 +190,8 @@ theorem head_shape (c : Cfg) (s : Sock) :
 /-- **the upstream head is one well-formed HTTP/1.1 request head**, for every parsed request
     (method one of the eight codes — all `Parser.methodCode` produces, see `method_token`), every
     peer address without CR and every body that follows, under `HdrWf` of the client's header map
-    (explicit: see the file comment): the strict reader reads back the request line, which splits
+    (for a parsed request no hypothesis on the headers is needed, `head_wellformed_parsed`):
+    the strict reader reads back the request line, which splits
     at SP into exactly [the client's method token, the target, "HTTP/1.1"], the forwarded header
     map entry by entry, and the body untouched. -/
 theorem head_wellformed (c : Cfg) (s : Sock) (body : Bytes)
@@ -201,10 +210,54 @@ theorem method_token {tok : Bytes} {code : Nat} (h : Parser.methodCode tok = som
     methodToString code = tok ∧ code ∈ eightCodes :=
   ⟨methodToString_of_code h, code_mem_eightCodes h⟩
 
-/-- where `HdrWf` comes from: client header lines without CR whose name part is not blank -/
+/-- **the name part of `HdrWf` is guaranteed by the parser**: every entry of every header map
+    `Parser::parseHeaderList` produces — from ANY lines, no side condition — has a non-empty name
+    without ':' -/
+theorem names_guaranteed {hs : List Bytes} {m : HeaderMap}
+    (h : Parser.parseHeaderList hs [] = some m) : ∀ e ∈ m, e.1 ≠ [] ∧ COLON ∉ e.1 :=
+  nameOk_of_parseHeaderList h (fun e he => by cases he)
+
+/-- where `HdrWf` comes from: client header lines without CR (nothing else: the former side
+    condition "the name part is not blank" is now enforced by the parser) -/
 theorem hdrWf_of_lines {hs : List Bytes} {m : HeaderMap}
-    (h : Parser.parseHeaderList hs [] = some m) (hl : ∀ l ∈ hs, LineOk l) : C03L.HdrWf m :=
+    (h : Parser.parseHeaderList hs [] = some m) (hl : ∀ l ∈ hs, CR ∉ l) : C03L.HdrWf m :=
   wf_of_parseHeaderList h hl
+
+/-- `HdrWf` of a parsed request's header map from the CR-freeness of its entries alone -/
+theorem hdrWf_of_parsed {head : Bytes} {rh : Parser.ReqHead}
+    (h : Parser.parseRequestHeaders head = some rh) (hcr : ∀ e ∈ rh.headers, CrFree e) :
+    C03L.HdrWf rh.headers := wf_of_parseRequestHeaders h hcr
+
+/-- the same theorem as `head_wellformed` under the weaker condition `HdrW`: every entry has a
+    non-empty name without ':' and neither name nor value contains CR LF (lone CRs allowed) -/
+theorem head_wellformed_general (c : Cfg) (s : Sock) (body : Bytes)
+    (hm : s.method ∈ eightCodes) (hw : HdrW s.reqHeaders) (hp : CR ∉ c.peerIP) :
+    ∃ m, Http.parse (upstreamHead c s ++ body) = some m ∧
+      m.headers = fwdHeaders c s.reqHeaders ∧ m.body = body ∧
+      splitF [SP] (m.start.length + 1) none m.start =
+        [methodToString s.method, 47 :: pctEncode pathKeep c.path ++ upstreamQuery s.rawPath,
+         lit ['H','T','T','P','/','1','.','1']] ∧
+      Parser.methodCode (methodToString s.method) = some s.method :=
+  ⟨_, ProxyL.head_wellformed_w c s body hm hw hp, rfl, rfl, startLine_split c s hm,
+    (methodToString_clean _ hm).2.2⟩
+
+/-- **`HdrW` holds for every request head the library's parser accepts** — no side condition -/
+theorem hdrW_parsed {head : Bytes} {rh : Parser.ReqHead}
+    (h : Parser.parseRequestHeaders head = some rh) : HdrW rh.headers :=
+  hdrW_of_parseRequestHeaders h
+
+/-- hence: for EVERY request head the library's parser accepts the upstream head is one
+    well-formed HTTP/1.1 request head.  No hypothesis on the headers (before the repair of the
+    parser an empty header name made this false); the only hypothesis left is on the
+    configuration: the peer address text has no CR. -/
+theorem head_wellformed_parsed (c : Cfg) (head : Bytes) (rh : Parser.ReqHead) (body : Bytes)
+    (h : Parser.parseRequestHeaders head = some rh) (hp : CR ∉ c.peerIP) :
+    ∃ m, Http.parse (upstreamHead c (reqSock rh) ++ body) = some m ∧
+      m.headers = fwdHeaders c rh.headers ∧ m.body = body :=
+  have hm : rh.method ∈ eightCodes := by
+    obtain ⟨_, _, _, _, hm⟩ := (Parser.parseRequestHeaders_eq_some_iff head [] rh).mp h
+    exact code_mem_eightCodes hm
+  ⟨_, ProxyL.head_wellformed_w c (reqSock rh) body hm (hdrW_of_parseRequestHeaders h) hp, rfl, rfl⟩
 
 /-! ### 3. the forwarded header map, name by name (no hypothesis at all) -/
 
@@ -234,7 +287,7 @@ theorem xri (c : Cfg) (h : HeaderMap) :
     HeaderMap.values XRI (fwdHeaders c h) =
       if HeaderMap.contains XRI h then HeaderMap.values XRI h else [c.peerIP] := ProxyL.xri c h
 
-/-! ### non-vacuity, the repaired finding, the known finding -/
+/-! ### non-vacuity, the repaired findings -/
 
 section examples
 
@@ -272,14 +325,40 @@ theorem lone_LF_is_escaped :
     upstreamQuery raw = lit ['?','x','%','0','A','I','n','j','e','c','t','e','d',':','y'] := by
   decide
 
-/-- KNOWN FINDING (model = library, confirmed on the harness: `new feed:"GET /a HTTP/1.1<CRLF>:
-    v<CRLF><CRLF>" turn turn`): a header line with an empty name is accepted and forwarded as
-    `": v"`, which the strict reader (like any HTTP reader) refuses — `HdrWf` is necessary -/
-theorem empty_name_forwarded :
-    let head : Bytes := lit ['G','E','T',' ','/','a',' ','H','T','T','P','/','1','.','1','\r','\n',':',' ','v']
-    (Parser.parseRequestHeaders head).map (·.headers) = some [([], lit ['v'])] ∧
-    Http.parse (upstreamHead {} { method := 2, rawPath := lit ['/','a'], reqHeaders := [([], lit ['v'])] }) = none := by
+/-- decidable form of "every entry is `CrFree`" -/
+def crFreeB (h : HeaderMap) : Bool := h.all fun e => !containsByte CR e.1 && !containsByte CR e.2
+
+theorem crFreeB_iff (h : HeaderMap) : crFreeB h = true ↔ ∀ e ∈ h, CrFree e := by
+  simp only [crFreeB, List.all_eq_true, Bool.and_eq_true, Bool.not_eq_true',
+    Http.containsByte_eq_false]
+  rfl
+
+/-- REPAIRED FINDING (was: a header line with an empty name is accepted and forwarded as `": v"`,
+    which the strict reader — like any HTTP reader — refuses; harness scenario
+    `new feed:"GET /a HTTP/1.1<CRLF>: v<CRLF><CRLF>" turn turn`).  Now the parser refuses every
+    head with such a line: empty name, blank name, and after good lines. -/
+theorem empty_name_rejected :
+    Parser.parseRequestHeaders (lit ['G','E','T',' ','/','a',' ','H','T','T','P','/','1','.','1','\r','\n',':',' ','v']) = none ∧
+    Parser.parseRequestHeaders (lit ['G','E','T',' ','/','a',' ','H','T','T','P','/','1','.','1','\r','\n',' ','\t',':','v']) = none ∧
+    Parser.parseRequestHeaders (lit ['G','E','T',' ','/','a',' ','H','T','T','P','/','1','.','1','\r','\n','A',':','b','\r','\n',':',' ','v']) = none := by
   decide +kernel
+
+/-- in general: a request head one of whose header lines has a blank name part is refused by
+    `Parser::parseHeaderList`, hence never parsed, for every position of the line -/
+theorem blank_name_refused (pre post : List Bytes) (n x : Bytes) (m0 : HeaderMap)
+    (hn : COLON ∉ n) (hb : Parser.Blank n) :
+    Parser.parseHeaderList (pre ++ (n ++ [COLON] ++ x) :: post) m0 = none := by
+  rw [Parser.parseHeaderList_eq, if_neg]
+  intro h
+  have := h (n ++ [COLON] ++ x) (by simp)
+  rw [Parser.hdrLineB_iff] at this
+  obtain ⟨n', x', e, hn', hc⟩ := this
+  have a := breakOn_singleton x hn
+  have b := breakOn_singleton x' hn'
+  rw [e, b] at a
+  simp only [Option.some.injEq, Prod.mk.injEq] at a
+  rw [a.1] at hc
+  exact (Parser.not_blank_iff n).2 hc hb
 
 end examples
 
@@ -463,8 +542,9 @@ theorem method_mem_of_parse {head : Bytes} {rh : Parser.ReqHead}
     turns, in particular of the turn at which the upstream connection completes, among the body
     segments — whose stream is an accepted request with a declared body length (`C02.req`), the
     executable predicate the driver evaluates on traces of the real proxy holds on the model's
-    run.  Explicit hypotheses: `HdrWf` of the client's parsed header map (NOT guaranteed by the
-    library: known finding, `empty_name_forwarded`), and a peer address text without CR and ','.
+    run.  The only explicit hypothesis is on the configuration: a peer address text without CR
+    and ','.  (The former hypothesis `HdrWf` of the client's parsed header map is gone: it is a
+    theorem now that the parser refuses blank names, `hdrW_parsed`.)
     The other streams (head incomplete or rejected, no declared length) are covered by
     `holds_run_all` below.  A NEGATIVE declared length other than -1 is excluded there because the
     property is false for it: the socket treats the request as finished at once and drops later
@@ -473,8 +553,6 @@ theorem method_mem_of_parse {head : Bytes} {rh : Parser.ReqHead}
     (harness: model = library, `holds` false on both). -/
 theorem holds_run (env : Env) (c : Cfg) (evs : List PEv) (hshape : relayShape evs = true)
     (r : C02.Req) (hreq : C02.req env (clientStream evs) = some r)
-    (HdrWf : ∀ head f, C01.headOf (clientStream evs) = some head → C01.expect env head = some f →
-      C03L.HdrWf f.headers)
     (hcr : CR ∉ c.peerIP) (hcomma : (44 : UInt8) ∉ c.peerIP) :
     holds env c evs (Proxy.run env c evs).sock.log = true := by
   by_cases hc : c.refuse = true
@@ -483,9 +561,7 @@ theorem holds_run (env : Env) (c : Cfg) (evs : List PEv) (hshape : relayShape ev
   obtain ⟨head, rh, f, hfin, hexp, hp, f1, f2, f3⟩ := req_parsed hreq
   have hfin' : breakOn CRLF2 (fedP evs) = some (head, r.rest) := by rw [← clientStream_eq]; exact hfin
   have hhead : C01.headOf (clientStream evs) = some head := by unfold C01.headOf; rw [hfin]; rfl
-  have hwf : C03L.HdrWf (reqSock rh).reqHeaders := by
-    show C03L.HdrWf rh.headers
-    rw [← f3]; exact HdrWf head f hhead hexp
+  have hwf : HdrW (reqSock rh).reqHeaders := hdrW_of_parseRequestHeaders hp.parse
   have hm : (reqSock rh).method ∈ eightCodes := method_mem_of_parse hp.parse
   rcases run_final env c hc' hp r.rest hfin' (relayPEv_of_shape hshape) with ⟨hu, hnt⟩ | ⟨d, hu, hpre, hfull⟩
   · -- nothing upstream yet: the run is not settled
@@ -497,7 +573,7 @@ theorem holds_run (env : Env) (c : Cfg) (evs : List PEv) (hshape : relayShape ev
     unfold holds
     simp [hc', hhead, hexp, hu', hns]
   · have hu' : upstreamBytes (Proxy.run env c evs).sock.log = upstreamHead c (reqSock rh) ++ d := hu
-    have hparse := ProxyL.head_wellformed c (reqSock rh) d hm hwf hcr
+    have hparse := ProxyL.head_wellformed_w c (reqSock rh) d hm hwf hcr
     rw [← hu'] at hparse
     have hne : (upstreamBytes (Proxy.run env c evs).sock.log).isEmpty = false := by
       rw [hu']
@@ -622,7 +698,7 @@ theorem holds_of_final (env : Env) (c : Cfg) (evs : List PEv) (obs : List Obs)
     (head : Bytes) (f : Snap) (rh : Parser.ReqHead)
     (hhead : C01.headOf (clientStream evs) = some head) (hexp : C01.expect env head = some f)
     (f1 : f.method = rh.method) (f2 : f.rawPath = rh.rawPath) (f3 : f.headers = rh.headers)
-    (hm : rh.method ∈ eightCodes) (hwf : C03L.HdrWf rh.headers)
+    (hm : rh.method ∈ eightCodes) (hwf : HdrW rh.headers)
     (hcr : CR ∉ c.peerIP) (hcomma : (44 : UInt8) ∉ c.peerIP)
     (ro : Option C02.Req) (hreq : C02.req env (clientStream evs) = ro) (ent : Bytes)
     (hent : (match ro with
@@ -641,7 +717,7 @@ theorem holds_of_final (env : Env) (c : Cfg) (evs : List PEv) (obs : List Obs)
     unfold holds
     simp [hc, hhead, hexp, hu', hns]
   · have hu' : upstreamBytes obs = upstreamHead c (reqSock rh) ++ d := hu
-    have hparse := ProxyL.head_wellformed c (reqSock rh) d hm hwf hcr
+    have hparse := ProxyL.head_wellformed_w c (reqSock rh) d hm hwf hcr
     rw [← hu'] at hparse
     have hne : (upstreamBytes obs).isEmpty = false := by
       rw [hu']
@@ -703,11 +779,13 @@ theorem req_some_of_nonneg {env : Env} {stream head rest : Bytes} {f : Snap}
     `new (feed seg | turn)*` — whatever the client's byte stream is: head never complete, head
     rejected, accepted with a declared body length, accepted without one — the executable
     predicate holds on the model's run, provided that an accepted head does not declare a
-    NEGATIVE length other than -1 (there the property is false, see `holds_run`) and its header
-    map is `HdrWf` (known finding), and the peer address text has no CR and no ','. -/
+    NEGATIVE length other than -1 (there the property is false, see `holds_run`), and the peer
+    address text has no CR and no ','.  Nothing is asked of the header lines: heads with an empty
+    or blank header name are rejected and fall under the "head rejected" case, every accepted head
+    has a header map that re-reads (`hdrW_parsed`). -/
 theorem holds_run_all (env : Env) (c : Cfg) (evs : List PEv) (hshape : relayShape evs = true)
     (hclean : ∀ head f, C01.headOf (clientStream evs) = some head → C01.expect env head = some f →
-      -1 ≤ f.total ∧ C03L.HdrWf f.headers)
+      -1 ≤ f.total)
     (hcr : CR ∉ c.peerIP) (hcomma : (44 : UInt8) ∉ c.peerIP) :
     holds env c evs (Proxy.run env c evs).sock.log = true := by
   by_cases hc : c.refuse = true
@@ -737,7 +815,7 @@ theorem holds_run_all (env : Env) (c : Cfg) (evs : List PEv) (hshape : relayShap
       unfold holds
       simp [hc', hhead, hexp, hu]
     | some f =>
-      obtain ⟨htot, hwf⟩ := hclean head f hhead hexp
+      have htot := hclean head f hhead hexp
       by_cases hneg : f.total < 0
       · -- no declared length
         have ht : f.total = -1 := by omega
@@ -750,10 +828,10 @@ theorem holds_run_all (env : Env) (c : Cfg) (evs : List PEv) (hshape : relayShap
           apply List.drop_left'
           simp [C02.CRLF2_length]
         exact holds_of_final env c evs _ hshape hc' head f rh hhead hexp f1 f2 f3
-          (method_mem_of_parse hp.parse) (by rw [← f3]; exact hwf) hcr hcomma none hreq restF hdrop hfinal
+          (method_mem_of_parse hp.parse) (hdrW_of_parseRequestHeaders hp.parse)
+          hcr hcomma none hreq restF hdrop hfinal
       · obtain ⟨r, hreq⟩ := req_some_of_nonneg hbk hexp (by omega)
-        exact holds_run env c evs hshape r hreq
-          (fun head' f' h1 h2 => (hclean head' f' h1 h2).2) hcr hcomma
+        exact holds_run env c evs hshape r hreq hcr hcomma
 
 /-! ### non-vacuity of the run theorems: a POST with a 3-byte body whose head, blank line and body
     are cut across three segments, the connection completing after the first body byte -/
@@ -770,8 +848,6 @@ def evsEx : List PEv :=
 example : relayShape evsEx = true := by decide
 example : (C02.req envEx (clientStream evsEx)).isSome = true := by decide +kernel
 example : settled evsEx = true := by decide
-example : (C01.headOf (clientStream evsEx)).bind (fun h => (C01.expect envEx h).map fun f => hdrWfB f.headers)
-    = some true := by decide +kernel
 example : CR ∉ ({} : Cfg).peerIP ∧ (44 : UInt8) ∉ ({} : Cfg).peerIP := by decide
 /-- the predicate evaluated on the model's run (the theorem says this for every run) -/
 example : holds envEx {} evsEx (Proxy.run envEx {} evsEx).sock.log = true := by decide +kernel
@@ -787,6 +863,29 @@ example : relayShape evsNoLen = true := by decide
 example : holds envEx {} evsNoLen (Proxy.run envEx {} evsNoLen).sock.log = true := by decide +kernel
 example : (Http.parse (upstreamBytes (Proxy.run envEx {} evsNoLen).sock.log)).map (·.body) = some [97, 98, 99] := by
   decide +kernel
+/-- a request OUTSIDE the former hypothesis `HdrWf` that the run theorems now cover: a lone CR in a
+    header name and in a header value (`X<CR>Y: a<CR>b`).  The head is accepted, forwarded, and the
+    strict reader finds the entry unchanged. -/
+def evsLoneCR : List PEv :=
+  [.sock .new, .sock (.feed (lit ['G','E','T',' ','/','a',' ','H','T','T','P','/','1','.','1','\r','\n','X','\r','Y',':',' ','a','\r','b','\r','\n','\r','\n'])),
+   .turn, .turn]
+example : relayShape evsLoneCR = true ∧
+    (C01.headOf (clientStream evsLoneCR)).bind (fun h => (C01.expect envEx h).map fun f => crFreeB f.headers)
+      = some false ∧
+    holds envEx {} evsLoneCR (Proxy.run envEx {} evsLoneCR).sock.log = true ∧
+    (Http.parse (upstreamBytes (Proxy.run envEx {} evsLoneCR).sock.log)).map
+        (fun m => HeaderMap.values (lit ['x','\r','y']) m.headers) = some [lit ['a','\r','b']] := by
+  decide +kernel
+/-- the head with an empty header name (`GET /a HTTP/1.1 CRLF : v CRLF CRLF`, the repaired finding):
+    rejected, nothing reaches the upstream server, the client is answered 400 -/
+def evsEmptyName : List PEv :=
+  [.sock .new, .sock (.feed (lit ['G','E','T',' ','/','a',' ','H','T','T','P','/','1','.','1','\r','\n',':',' ','v','\r','\n','\r','\n'])),
+   .turn, .turn]
+example : relayShape evsEmptyName = true ∧
+    holds envEx {} evsEmptyName (Proxy.run envEx {} evsEmptyName).sock.log = true ∧
+    upstreamBytes (Proxy.run envEx {} evsEmptyName).sock.log = [] ∧
+    (Obs.wire (Proxy.run envEx {} evsEmptyName).sock.log).take 12 =
+      lit ['H','T','T','P','/','1','.','0',' ','4','0','0'] := by decide +kernel
 /-- a rejected head (`BAD CRLF CRLF`): nothing reaches the upstream server -/
 def evsBad : List PEv := [.sock .new, .sock (.feed [66, 65, 68, 13, 10, 13, 10]), .turn, .turn]
 example : holds envEx {} evsBad (Proxy.run envEx {} evsBad).sock.log = true ∧
